@@ -710,6 +710,7 @@ def rule_hop_cost(ctx, rep, config="c-lib"):
         key = "error_recovery/hop-counts-the-old-frontier#%d" % n
         out = resolve_addr(f, c.args[1])
         comp = None
+        wrong_set = None
         for s_ in f.all_insts():
             if s_.op != "store" or resolve_addr(f, s_.ops[1]).root != out.root:
                 continue
@@ -725,9 +726,33 @@ def rule_hop_cost(ctx, rep, config="c-lib"):
                 a, b = loaded_from(f, cc.ops[0]), loaded_from(f, cc.ops[1])
                 flds = set([(a.last_field() if a is not None else None), (b.last_field() if b is not None else None)])
                 if flds == set(["set_core.term", "grammar.term_error"]) and (cc.d["pred"] == "ne") == pol:
-                    comp = s_
+                    # the set looked at is the one of the OLD frontier: pl[F] for the F whose F - 1 the walk started at
+                    tl = f.inst(strip_casts(f, cc.ops[0] if (a is not None and a.last_field() == "set_core.term") else cc.ops[1]))
+                    idx = None
+                    for _ in range(3):
+                        if tl is None or tl.op != "load":
+                            break
+                        pa_ = resolve_addr(f, tl.ops[0])
+                        if pa_.steps and pa_.steps[-1][0] in ("idx", "ptr") and not pa_.fields():
+                            idx = pa_.steps[-1][1]
+                            break
+                        tl = f.inst(strip_casts(f, pa_.root[1])) if pa_.root[0] == "val" else None
+                    expr.NAMED[0] = True
+                    try:
+                        want = expr.lin(f, c.args[0], 0, 2)
+                        got = expr.lin(f, idx, 0, 2) if idx is not None else None
+                    finally:
+                        expr.NAMED[0] = False
+                    if got is not None and repr(got.add(want, -1)) == "1":
+                        comp = s_
+                    elif got is not None:
+                        wrong_set = (s_, got, want)
         if comp is not None:
             rep.ok("R16-hop", key, sample={"walk": c.where(), "old_frontier_counted_at": comp.where()})
+        elif wrong_set is not None:
+            rep.violation("R16-hop", key, "the token of the old frontier is counted under a test of another set than the old frontier's: pl[%r] is looked at, the walk "
+                          "started at %r (the old frontier minus one) -- after a hop onto a set made by an `error' shift the cost is off by one, the range reported to "
+                          "syntax_error does not cover the tokens the tree lost" % (wrong_set[1], wrong_set[2]), where=wrong_set[0].where(), witness=[c.where(), wrong_set[0].where()])
         else:
             rep.violation("R16-hop", key, "the backward walk of a further hop starts one set below the old frontier and the token of the old frontier's own set is not "
                           "counted: back_to_frontier_move_cost is one too small per hop -- the first ignored token reported to syntax_error is too large and fewer "
